@@ -307,7 +307,9 @@ def main(argv=None):
 
     describe = dict(
         level="other",
-        rule="C04-grammar programs of <= 2 (thorough: + strided 3) statements plus consumers; a failing statement of each of 16 kinds "
+        rule="C04-grammar programs of <= 2 (thorough: + strided 3) statements plus consumers; a failing statement of each of 20 kinds (the 16 listed next, plus an integer result forced non-constant - refused only after the "
+             "forward pass - and a Python scalar overflowing a small integer dtype, each on a tensor and on a view); on a natively read-only base, "
+             "each of 5 in-place statements; originally: 16 kinds "
              "(shape-incompatible op, bad axis/index/reshape/transpose/einsum, failing item/augmented assignment on base or view, wrong out=, "
              "wrong where=, bad .shape, natively read-only target) inserted at every position, targeting the two youngest live tensors; "
              "quick keeps every third (program, position, kind) triple",
